@@ -148,6 +148,41 @@ def timeout_due(sc, tr):
     return None
 
 
+def reconnect_family(rep, rnd, n):
+    """the event sequence of a connection made on a WebSocket object that has been connected before"""
+    import lomond.websocket as W
+    al = alphabet()
+    firsts = [["hs", "text", "eof"], ["hs", "silence", "close", "eof"], ["hs404"], ["hs", "bad"], ["hs", "silence", "silence"], ["hs", "oserr"],
+              ["hspart"], ["eof"], ["hs", "longsilence", "eof"]]
+    seconds = [["silence", "hs", "text", "eof"], ["hspart", "silence", "hsrest", "ping", "eof"], ["silence", "silence", "hs404"],
+               ["hs", "silence", "text", "close", "eof"], ["silence", "eof"], ["hspart", "longsilence", "eof"], ["silence", "hsbad"]]
+    cases = 0
+    for i in range(n):
+        f = firsts[i % len(firsts)]
+        g = seconds[(i // len(firsts)) % len(seconds)]
+        app1 = {} if rnd.random() < 0.6 else {rnd.randrange(1, 5): APP[rnd.choice(["close", "text"])]}
+        cfg = simnet.default_cfg(ping_timeout=rnd.choice([None, 20 * 1024]), ping_rate=rnd.choice([0, 7 * 1024, 30 * 1024]))
+        sc1 = build(f, app1, cfg)
+        sc2 = build(g, {}, cfg)
+        ws = W.WebSocket("ws://example.test/chat")
+        a = dict(fam.strip_meta(sc1))
+        a["_ws_object"] = ws
+        simnet.run_impl(a)
+        b = dict(fam.strip_meta(sc2))
+        b["_ws_object"] = ws
+        r = simnet.run_impl(b)
+        tr = simnet.canon_trace(r.trace)
+        cases += 1
+        rep.add_case(("reconnect", tuple(f), tuple(g), i))
+        rep.count("reconnect.previous", "+".join(f))
+        complaints = oracle(sc2, tr, dict(escaped=r.escaped, stop_ok=r.stop_ok))
+        if complaints:
+            rep.violation("on a WebSocket object that had been connected before: " + complaints[0],
+                          scenario=dict(kind="reconnect", previous=fam.jsonable_sc(fam.strip_meta(sc1)), next=fam.jsonable_sc(fam.strip_meta(sc2))),
+                          family="C07:reconnect")
+    rep.families.append(dict(name="C07:reconnect", cases=cases, rule="the monitor automaton on the events of a SECOND connection of the same WebSocket object (silence before / inside / after the handshake reply, rejection, EOF) after a first connection that ended in various ways (EOF after Ready, closing handshake, rejection, protocol error, abandoned while waiting, recv error, half a reply)"))
+
+
 def run(rep, info, model, tier, seed):
     rnd = random.Random(seed)
     proof_ok = rep.proof_obligations(info, "props/C07.v")
@@ -191,6 +226,35 @@ def run(rep, info, model, tier, seed):
                     sc["wfaults"] = ["ok", wf]
                     sc["salt"] = at
                     scs.append(sc)
+    # an armed timeout (the client's Close unanswered; no Pong within ping_timeout) while the server keeps sending bytes that
+    # complete no message, in reads less than one poll interval apart: iteration must still end once the timeout has fired
+    for kind in ("close-at-ready", "close-later", "ping-timeout", "echoed-server-close"):
+        for trickle in ("fragments", "one-frame-bytewise"):
+            for dt in (1024, 3 * 1024):
+                steps = [("data", 100, scen.HANDSHAKE)]
+                app = {}
+                cfgkw = dict(ping_timeout=None, close_timeout=10 * 1024, ping_rate=0)
+                if kind == "close-at-ready":
+                    app = {2: APP["close"]}
+                elif kind == "close-later":
+                    steps.append(("data", 100, E(1, b"hi")))
+                    app = {3: APP["close"]}
+                elif kind == "ping-timeout":
+                    cfgkw = dict(ping_timeout=10 * 1024, close_timeout=None, ping_rate=0)
+                else:
+                    steps.append(("data", 100, E(8, ref6455.close_payload(1000, b""))))
+                n = (10 * 1024 + 3 * 5 * 1024) // dt + 4
+                if trickle == "fragments":
+                    steps.append(("data", dt, E(2, b"f", fin=0)))
+                    steps += [("data", dt, E(0, b"g", fin=0)) for _ in range(n)]
+                else:
+                    big = E(2, b"z" * (n + 8))
+                    steps.append(("data", dt, big[:4]))
+                    steps += [("data", dt, big[4 + i:5 + i]) for i in range(n)]
+                sc = dict(cfg=simnet.default_cfg(**cfgkw), steps=steps, app=app, keys=[b"\x0a\x0b\x0c\x0d"] * 12, key16=scen.KEY16)
+                sc["_seq"] = ["hs", kind, trickle, dt]
+                sc["_terminates"] = False
+                scs.append(sc)
     # random longer histories
     nlong = 1500 if tier == "quick" else 15000
     for _ in range(nlong):
@@ -212,12 +276,31 @@ def run(rep, info, model, tier, seed):
     fam.run_family(rep, model, "C07:server-steps-x-app-reactions", scs, oracle, project=lambda t: t,
                    rule="exhaustive: server-step sequences up to depth %d over {handshake variants, text, ping, pong, close, reserved opcode, bad utf-8, half frame, silence, EOF, recv error, recv exception, selector exception} x application reaction {nothing, send_text, close} at one event (depth 4: a reduced grid of reactions); connect and request-write failures; plus %d random longer histories with timers; monitor automaton on the real event names; the full trace (events, writes, waits) is compared with the model" % (depth, nlong))
     rep.exhaustive["server-step sequences up to depth %d" % depth] = True
+    reconnect_family(rep, rnd, 60 if tier == "quick" else 600)
     if not proof_ok and not rep.violations:
         rep.broken("proof obligation props/C07.v no longer checks: %s" % (rep.coq_failure,))
 
 
 def replay(body):
     sc = fam.unjson_sc(body["scenario"])
+    if sc.get("kind") == "reconnect":
+        import lomond.websocket as W
+        ws = W.WebSocket("ws://example.test/chat")
+        a = dict(sc["previous"])
+        a["_ws_object"] = ws
+        simnet.run_impl(a)
+        b = dict(sc["next"])
+        b["_ws_object"] = ws
+        r = simnet.run_impl(b)
+        tr = simnet.canon_trace(r.trace)
+        codes = fam.event_codes(tr)
+        blocked = any(it[0] == 7 for it in tr)
+        m = monitor(codes + [14]) if (blocked and codes and codes[-1] not in (1, 14)) else monitor(codes)
+        if blocked and m and "terminal" in m:
+            m = None
+        print("events of the second connection:", [NAMES.get(c) for c in codes], "escaped:", r.escaped)
+        print("REPLAY:", "VIOLATION reproduced: %s" % m if (m or r.escaped) else "property holds on this input")
+        return 1 if (m or r.escaped) else 0
     r = simnet.run_impl(sc)
     tr = simnet.canon_trace(r.trace)
     codes = fam.event_codes(tr)
